@@ -11,6 +11,11 @@ import (
 
 	"github.com/anishathalye/porcupine"
 	"go.nanomsg.org/mangos/v3"
+	"go.nanomsg.org/mangos/v3/protocol"
+	"go.nanomsg.org/mangos/v3/protocol/pair"
+	"go.nanomsg.org/mangos/v3/protocol/pair1"
+	"go.nanomsg.org/mangos/v3/protocol/xpair"
+	"go.nanomsg.org/mangos/v3/protocol/xpair1"
 
 	"verifharness/hx"
 	"verifharness/mon"
@@ -64,6 +69,10 @@ func TestC02(t *testing.T) {
 	for i := 0; i < n/8; i++ {
 		cases = append(cases, mon.CaseSpec{Name: "single-peer", Spec: spec{Kind: "single", Proto: []string{"pair", "pair1", "xpair"}[i%3], Msgs: 10 + rnd.Intn(20), WQ: 128, RQ: 128}})
 	}
+	for i := 0; i < n/4; i++ {
+		cases = append(cases, mon.CaseSpec{Name: "latejoin", Spec: spec{Kind: "latejoin", Proto: []string{"push", "xpush"}[i%2], Peers: 1 + rnd.Intn(3), WQ: []int{1, 2, 4, 128}[rnd.Intn(4)], Msgs: 3 + rnd.Intn(6)}})
+		cases = append(cases, mon.CaseSpec{Name: "race-connect", Spec: spec{Kind: "race", Proto: []string{"pair", "pair1", "xpair", "xpair1"}[i%4], Msgs: 150 + rnd.Intn(150), Procs: procs[rnd.Intn(3)], Yield: rnd.Intn(2) == 0}})
+	}
 	r.Run(cases, func(c *mon.Case) {
 		sp := c.Spec.(spec)
 		if sp.Procs > 0 {
@@ -83,6 +92,10 @@ func TestC02(t *testing.T) {
 			runFaults(c, sp)
 		case "single":
 			runSingle(c, sp)
+		case "latejoin":
+			runLateJoin(c, sp)
+		case "race":
+			runRace(c, sp)
 		}
 	})
 }
@@ -748,4 +761,180 @@ func runSingle(c *mon.Case, sp spec) {
 	}
 	c.Nontrivial()
 	c.Sig("single|%s", sp.Proto)
+}
+
+// ---------------------------------------------------------------------------
+
+// runLateJoin: earlier PULL peers are stalled with a backlog queued and a Send blocked; a peer that
+// connects later is able to take messages, so the backlog must drain to it and the Send must complete.
+func runLateJoin(c *mon.Case, sp spec) {
+	s := hx.MustSock(c, sp.Proto)
+	setQ(c, s, sp.WQ, 128)
+	name := hx.Uniq("c02l")
+	L := vt.L(name)
+	c.Cleanup(func() { vt.Forget(name) })
+	if err := s.Listen(vt.Addr(name)); err != nil {
+		c.Inconclusive("setup: %v", err)
+		return
+	}
+	w := hx.WatchPipes(s)
+	var stalled []*vt.Pipe
+	for i := 0; i < sp.Peers; i++ {
+		p := L.Connect()
+		p.HoldSends() // connected, but its transport never completes a send
+		stalled = append(stalled, p)
+	}
+	if !hx.WaitAttached(c, w, sp.Peers, "stalled pull peers") {
+		return
+	}
+	nonce := hx.Uniq("n")
+	// senders: enough messages to occupy every stalled peer, fill the write queue, and block
+	total := sp.Peers + sp.WQ%8 + sp.Msgs
+	if sp.WQ == 128 {
+		total = sp.Peers + sp.Msgs
+	}
+	var calls []*mon.Call
+	for q := 0; q < total; q++ {
+		q := q
+		calls = append(calls, mon.Go(fmt.Sprintf("Send#%d", q), func() (interface{}, error) { return nil, s.Send(payload(nonce, 0, 0, q)) }))
+		mon.Sleep(200 * time.Microsecond)
+	}
+	// let them settle: each is either done (queued / handed to a stalled peer) or parked
+	mon.Await(func() bool {
+		for _, k := range calls {
+			if !k.Done() && !k.ParkedIn("SendMsg") {
+				return false
+			}
+		}
+		return true
+	}, mon.AwaitOpts{Watchdog: 5 * time.Second})
+	blocked := 0
+	for _, k := range calls {
+		if !k.Done() {
+			blocked++
+		}
+	}
+	c.Count("sends_blocked_before_join", blocked)
+	// the late joiner takes everything it is offered
+	late := L.Connect()
+	if !hx.WaitAttached(c, w, sp.Peers+1, "late pull peer") {
+		return
+	}
+	inflight := 0
+	for _, p := range stalled {
+		if _, sw := p.Waiters(); sw > 0 {
+			inflight++ // one message is stuck inside each stalled peer's transport
+		}
+	}
+	want := total - inflight
+	if !c.AwaitOrViolate("push/late-peer-not-served", fmt.Sprintf("%d queued/blocked messages draining to a PULL peer that connected after %d stalled peers (WriteQLen=%d)", want, sp.Peers, sp.WQ), func() bool { return late.SentCount() >= want }, mon.AwaitOpts{}) {
+		return
+	}
+	for _, k := range calls {
+		if !c.AwaitOrViolate("push/send-stuck:late-peer", "blocked Send completing once a peer able to take the message connected", k.Done, mon.AwaitOpts{}) {
+			return
+		}
+		if _, err, _ := k.Result(); err != nil {
+			c.Violate("push/send-error", "Send returned %v", err)
+		}
+	}
+	seen := map[int]bool{}
+	for _, snt := range late.SentLog() {
+		_, _, q, ok := parse(nonce, snt.Body)
+		if !ok || seen[q] {
+			c.Violate("queue/delivered-twice:latejoin", "late peer got %q (never sent, or twice)", snt.Body)
+			return
+		}
+		seen[q] = true
+	}
+	for _, p := range stalled {
+		p.ReleaseSends()
+	}
+	c.Count("messages", len(seen))
+	c.Nontrivial()
+	c.Sig("latejoin|%s|%d|%d|%d", sp.Proto, sp.Peers, sp.WQ, blocked)
+}
+
+// countingProto wraps a PAIR-family protocol and counts the peers it holds: incremented when the
+// inner AddPipe returned success, decremented on entry to RemovePipe.  For a correct protocol the
+// count never exceeds one (a second AddPipe can only succeed after RemovePipe cleared the first).
+type countingProto struct {
+	mangos.ProtocolBase
+	c    *mon.Case
+	n    atomic.Int64
+	max  atomic.Int64
+	adds atomic.Int64
+}
+
+func (w *countingProto) AddPipe(p mangos.ProtocolPipe) error {
+	err := w.ProtocolBase.AddPipe(p)
+	if err == nil {
+		w.adds.Add(1)
+		if n := w.n.Add(1); n > w.max.Load() {
+			w.max.Store(n)
+		}
+	}
+	return err
+}
+
+func (w *countingProto) RemovePipe(p mangos.ProtocolPipe) {
+	w.n.Add(-1)
+	w.ProtocolBase.RemovePipe(p)
+}
+
+var pairProtos = map[string]func() mangos.ProtocolBase{
+	"pair": pair.NewProtocol, "pair1": pair1.NewProtocol, "xpair": xpair.NewProtocol, "xpair1": xpair1.NewProtocol,
+}
+
+// runRace: connection attempts racing each other from two endpoints — at most one peer at a time.
+func runRace(c *mon.Case, sp spec) {
+	w := &countingProto{ProtocolBase: pairProtos[sp.Proto](), c: c}
+	s := protocol.MakeSocket(w)
+	c.Cleanup(func() { s.Close() })
+	var Ls [2]*vt.ListenerCtl
+	for i := range Ls {
+		name := hx.Uniq("c02r")
+		Ls[i] = vt.L(name)
+		c.Cleanup(func() { vt.Forget(name) })
+		if err := s.Listen(vt.Addr(name)); err != nil {
+			c.Inconclusive("setup: %v", err)
+			return
+		}
+	}
+	for round := 0; round < sp.Msgs && !c.Failed(); round++ {
+		var ps [2]*vt.Pipe
+		start := make(chan struct{})
+		var wg sync.WaitGroup
+		for i := 0; i < 2; i++ {
+			i := i
+			wg.Add(1)
+			go func() {
+				defer wg.Done()
+				<-start
+				ps[i] = Ls[i].Connect()
+			}()
+		}
+		close(start)
+		wg.Wait()
+		// one is admitted, the other refused (closed by the library); wait until both are decided
+		if !c.AwaitOrViolate("pair/race-undecided", "two simultaneous connection attempts being admitted/refused", func() bool {
+			return w.max.Load() > 1 || (w.adds.Load() >= int64(round+1) && (ps[0].LibClosed() || ps[1].LibClosed()))
+		}, mon.AwaitOpts{}) {
+			return
+		}
+		if m := w.max.Load(); m > 1 {
+			c.Violate("pair/two-peers-at-once", "%s socket held %d peers at the same time after two simultaneous connection attempts (round %d)", sp.Proto, m, round)
+			return
+		}
+		// the admitted one leaves; wait until the protocol let it go
+		for i := 0; i < 2; i++ {
+			ps[i].Drop()
+		}
+		if !c.AwaitOrViolate("pair/first-peer-not-released", "dropped peers being released", func() bool { return w.n.Load() == 0 && ps[0].LibClosed() && ps[1].LibClosed() }, mon.AwaitOpts{}) {
+			return
+		}
+	}
+	c.Count("race_rounds", sp.Msgs)
+	c.Nontrivial()
+	c.Sig("race|%s|%d", sp.Proto, sp.Procs)
 }
